@@ -223,6 +223,9 @@ func GenSpec(t *rapid.T) *Spec {
 			uint64(rapid.SampledFrom([]int{1, 7, 1000, 123456}).Draw(t, "ddAmount")),
 		})
 	}
+	if ci := uint64(rapid.SampledFrom([]int{1, 1, 1, 2, 3, 0}).Draw(t, "commissionInterval")); ci != 1 {
+		s.CommissionInterval = &ci
+	}
 	// chains of debonding delegations maturing together: X -> A and A -> B (X a user, another entity, or A itself)
 	for i, n := 0, rapid.IntRange(0, 2).Draw(t, "ndebChains"); i < n && s.NEntities >= 2; i++ {
 		a := rapid.IntRange(0, s.NEntities-1).Draw(t, "dcA")
